@@ -1,21 +1,6 @@
 #!/bin/sh
-# tools/run_seeds.sh [seed-id ...]  -- run every implemented check against each stored seeded change
-# (applied to a scratch worktree outside /repo and /verif, removed afterwards). Prints which checks fire.
+# tools/run_seeds.sh [seed-id ...]  -- run every check against each stored seeded change (parallel, scratch worktrees under /tmp,
+# removed afterwards). A seed must be caught (VIOLATION) by the check of the property it was written against.
 cd /verif
 SEEDS="$@"; [ -n "$SEEDS" ] || SEEDS=$(ls seeded)
-for s in $SEEDS; do
-  W=/tmp/seedrun.$$
-  git -C /repo worktree add -q --detach $W HEAD || exit 2
-  if ! git -C $W apply /verif/seeded/$s/patch.diff 2>/dev/null; then echo "$s: patch does not apply"; git -C /repo worktree remove --force $W; continue; fi
-  fired=""; err=""
-  for p in sa/props/c[0-9][0-9].py; do
-    id=$(basename $p .py | tr c C)
-    ./check $id --root $W --no-evidence >/tmp/seedrun.out.$$ 2>&1; rc=$?
-    [ $rc = 1 ] && fired="$fired $id"
-    [ $rc = 2 ] && err="$err $id"
-    if [ $rc != 0 ] && [ -n "${VERBOSE:-}" ]; then grep -v '^WARNING' /tmp/seedrun.out.$$ | head -${VERBOSE}; fi
-  done
-  echo "$s: VIOLATION from:[$fired ] ANALYSIS-ERROR from:[$err ]"
-  git -C /repo worktree remove --force $W
-done
-rm -f /tmp/seedrun.out.$$
+for s in $SEEDS; do echo "$s /verif/seeded/$s/patch.diff"; done | xargs -P ${JOBS:-8} -L 1 tools/run_patch.sh | sort
